@@ -5,7 +5,9 @@ from .runner import ShardOut, Violation, run_batch, mechanical_violations, case_
 from .tn import Node, to_tn, from_tn, hx, d2b, tn_crc
 
 PTR_KEYS = [b'', b'a', b'A', b'/', b'~', b'~0', b'~1', b'a/b', b'm~n', b'0', b'1', b'01', b'-', b' ', b'1A', b'foo', b'FOO', b'Foo', b'b', b'k~/k',
-            b'\xc3\xa9', b'\xc3\xa9t\xc3\xa9', b'\xe6\x97\xa5', b'z\xc3\xbc', b'\xff', b'\x7f', b'\x80a']
+            b'\xc3\xa9', b'\xc3\xa9t\xc3\xa9', b'\xe6\x97\xa5', b'z\xc3\xbc', b'\xff', b'\x7f', b'\x80a',
+            # the names RFC 6902 gives to the members of an operation, and their other-case spellings
+            b'value', b'Value', b'VALUE', b'op', b'OP', b'path', b'Path', b'from', b'From']
 
 
 def wrapping_indices(L):
@@ -452,9 +454,40 @@ def is_ancestor(a, n):
     return False
 
 
+def same_kind_different(rng, n):
+    """a value of the same JSON type as n that is not equal to it"""
+    c = n.clone()
+    c.key = None
+    c.parent = None
+    if n.kind == 'n':
+        return Node.num(rng.choice([x for x in NUMS if x != n.dbl]))
+    if n.kind in 'sw':
+        return Node.string((n.sval or b'') + rng.choice([b'x', b' ', b'\x01']))
+    if n.kind in 'tf':
+        return Node('f' if n.kind == 't' else 't')
+    if n.kind == 'a':
+        if c.kids and rng.random() < 0.5:
+            c.kids = c.kids[:-1]
+        else:
+            c.kids = c.kids + [Node('z')]
+        return c
+    if n.kind == 'o':
+        if c.kids and rng.random() < 0.5:
+            c.kids = c.kids[1:]
+        else:
+            x = Node('t')
+            x.key = b'zz-extra-member'
+            c.kids = c.kids + [x]
+        return c
+    return Node('t')
+
+
 def faulty_op(rng, doc):
     nodes = all_nodes(doc)
     n = rng.choice(nodes)
+    if rng.random() < 0.12:
+        # a test that must fail although the value has the right type (and, in containers, mostly the right content)
+        return opobj(op=b'test', path=rfc.canonical_pointer(doc, n), value=same_kind_different(rng, n))
     p = rfc.canonical_pointer(doc, n)
     v = random_value(rng)
     arrs = [x for x in nodes if x.kind == 'a']
@@ -589,9 +622,9 @@ def case_c16(rng, cid):
         claim = not run.bad_syntax
     except rfc.Undefined:
         ok, res, run, claim = None, None, None, False
-    if rng.random() < 0.3:
+    if rng.random() < 0.45:
         rfc.set_parent(doc0)
-        sprinkle_flags(rng, doc0)
+        sprinkle_flags(rng, doc0, p=rng.choice([0.25, 0.6]))
     ptn = to_tn(patch)
     if rng.random() < 0.3:
         fp = patch.clone()
